@@ -1,0 +1,13 @@
+//go:build verif
+
+package lru
+
+// VerifRetained reports, under the cache lock, the number of list nodes reachable from the recency
+// list (sentinel included), the number of resident entries, the size of the in-flight table and the
+// result of the list's structural check.
+func (p *ECache[PK, K, V]) VerifRetained() (nodes, length, inflight int, err error) {
+	p.lock.Lock()
+	defer p.lock.Unlock()
+	nodes, _, _, err = p.items.VerifWalk()
+	return nodes, p.items.Len(), len(p.inflight), err
+}
